@@ -9,7 +9,9 @@
        R     fresh cache
      output: the results of H C G M in order (hash hex; G: hash or N; M: 0/1), or "-" if none
    thash.fb HEX              tree_hash_from_bytes: hash hex | ERR
+   thash.fbo HEX             node_from_bytes_backrefs_old + tree_hash_cached (fresh cache)
    thash.curry PH AH ...     curry_tree_hash
+   thash.curried P A ...     plain serialization of the curried program tree (P, A.. in plain serialization)
    thash.ff MODHASH LAUNCHER_ID LAUNCHER_PH INNER_SER
                              fast_forward.rs curry_and_treehash for the inner puzzle given in plain
                              serialization (its hash is computed with th) *)
@@ -83,9 +85,24 @@ Definition h_fb (args : list bytes) : bytes :=
   | FFuel => str "FUEL"
   end.
 
+Definition h_fbo (args : list bytes) : bytes :=
+  match tree_hash_from_bytes_old sha256 run_fuel (hx (arg 0 args)) with
+  | FOk x => hexo x
+  | FErr => str "ERR"
+  | FPanic => str "PANIC"
+  | FFuel => str "FUEL"
+  end.
+
 Definition h_curry (args : list bytes) : bytes :=
   match args with
   | ph :: ahs => hexo (curry_tree_hash sha256 (hx ph) (map hx ahs))
+  | [] => str "ERR-ARGS"
+  end.
+
+Definition h_curried (args : list bytes) : bytes :=
+  let trees := map (fun a => match node_from_bytes (hx a) with Some t => t | None => nil end) args in
+  match trees with
+  | p :: al => hexo (ser' (curried_program p al))
   | [] => str "ERR-ARGS"
   end.
 
@@ -97,7 +114,7 @@ Definition h_ff (args : list bytes) : bytes :=
   end.
 
 Definition thash_handlers : list (bytes * handler) :=
-  [ (str "thash.seq", h_seq); (str "thash.fb", h_fb); (str "thash.curry", h_curry); (str "thash.ff", h_ff) ].
+  [ (str "thash.seq", h_seq); (str "thash.fb", h_fb); (str "thash.fbo", h_fbo); (str "thash.curry", h_curry); (str "thash.curried", h_curried); (str "thash.ff", h_ff) ].
 
 Definition dispatch_n (line : list N) : list N :=
   map b2n (dispatch_table thash_handlers (map n2b line)).
